@@ -2,6 +2,7 @@ package lucene
 
 import (
 	"fmt"
+	"math"
 	"reflect"
 	"strconv"
 	"strings"
@@ -237,9 +238,10 @@ func parseLiteral(token lex.Token) (e any, err error) {
 		return expr.Lit(ival), nil
 	}
 
-	// attempt to parse it as a float
+	// attempt to parse it as a float (inf and nan spellings are words, not numbers: SQL has no
+	// literal for them and they would be rendered as bare identifiers)
 	fval, err := strconv.ParseFloat(token.Val, 64)
-	if err == nil {
+	if err == nil && !math.IsInf(fval, 0) && !math.IsNaN(fval) {
 		return expr.Lit(fval), nil
 	}
 
